@@ -69,6 +69,9 @@ def _rename(prog, mapping):
             s["lab"] = mapping[s["lab"]]
         if isinstance(s.get("val"), dict) and "sym" in s["val"]:
             s["val"]["sym"] = mapping[s["val"]["sym"]]
+        for v in s.get("vals", []):
+            if "sym" in v:
+                v["sym"] = mapping[v["sym"]]
         if s.get("to"):
             s["to"] = mapping[s["to"]]
     return prog
@@ -149,6 +152,8 @@ def _refs(prog):
     for s in prog["stmts"]:
         v = s.get("val")
         if s["k"] in ("imm16", "mem", "extind", "idx") and isinstance(v, dict) and v.get("sym") in labs:
+            has_abs = True
+        if s["k"] == "fdb" and any(x.get("sym") in labs for x in s["vals"]):
             has_abs = True
         if s["k"] == "pcr" or s["k"] == "br":
             has_rel = True
@@ -238,6 +243,18 @@ def execute(case):
             elif ba != bb:
                 return viol("shift by {}: bytes of {} changed from {} to {} although it holds no absolute label reference.".format(
                     d, ra[2].strip()[:40], ba.hex(), bb.hex()) + ctx, fid="C18:shift:bytes", labels=labels)
+        elif s["k"] in ("fcb", "fdb", "fcc", "rmb"):
+            n = proggen.size_bounds(s)[0]
+            ba, bb = A.image[offa:offa + n], B.image[offa:offa + n]
+            w = 2 if s["k"] == "fdb" else 1
+            for j, v in enumerate(s.get("vals", [None] * 0)):
+                ea, eb = int.from_bytes(ba[j * w:j * w + w], "big"), int.from_bytes(bb[j * w:j * w + w], "big")
+                want = d if (isinstance(v, dict) and v.get("sym") in labs) else 0
+                if (eb - ea) % (1 << (8 * w)) != want % (1 << (8 * w)):
+                    return viol("shift by {}: element {} of {} went from ${:X} to ${:X}.".format(d, j, ra[2].strip()[:40], ea, eb) + ctx,
+                                fid="C18:shift:data", labels=labels)
+            if s["k"] in ("fcc", "rmb") and ba != bb:
+                return viol("shift by {}: bytes of {} changed.".format(d, ra[2].strip()[:40]) + ctx, fid="C18:shift:data", labels=labels)
     for name, value in symA.items():
         want = value + d if name in labs else value
         if symB.get(name) != want:
